@@ -285,6 +285,9 @@ func frameStr(f *ref.Frame) string {
 	if f.Masked {
 		s += ",m"
 	}
+	if f.LenMSB {
+		s += ",announced+2^63"
+	}
 	return s + ")"
 }
 
